@@ -357,6 +357,34 @@ theorem refused_operations_keep_state (P : Prims) (d : Dir) (c aad : List UInt8)
   · unfold sendPacket; rw [if_pos h]
   · unfold fspDecrypt; rw [h]
 
+set_option maxRecDepth 8000 in
+/-- all 256 values of the header byte: a packet is a decoy exactly when bit 7 is set (header ≥ 128);
+the other seven bits are ignored -/
+theorem ignore_bit_iff (h : UInt8) : ignoreBit h = decide (128 ≤ h.toNat) := by
+  have key : ∀ n, n < 256 → ignoreBit (UInt8.ofNat n) = decide (128 ≤ n) := by decide
+  have := key h.toNat h.toNat_lt
+  simpa using this
+
+/-- a fragmenting network does not matter: reading n bytes and then m bytes is reading n + m bytes -/
+theorem receive_fragments (inp a b r1 r2 : List UInt8) (n m : Nat)
+    (h1 : recvN inp n = .ok (a, r1)) (h2 : recvN r1 m = .ok (b, r2)) :
+    recvN inp (n + m) = .ok (a ++ b, r2) := by
+  unfold recvN at *
+  split at h1
+  · exact absurd h1 (by simp)
+  · rename_i hn
+    simp only [Except.ok.injEq, Prod.mk.injEq] at h1
+    split at h2
+    · exact absurd h2 (by simp)
+    · rename_i hm
+      simp only [Except.ok.injEq, Prod.mk.injEq] at h2
+      have hr1 : r1.length = inp.length - n := by rw [← h1.2, List.length_drop]
+      rw [if_neg (by omega)]
+      simp only [Except.ok.injEq, Prod.mk.injEq]
+      refine ⟨?_, ?_⟩
+      · rw [← h1.1, ← h2.1, ← h1.2, List.take_add]
+      · rw [← h2.2, ← h1.2, List.drop_drop]
+
 /-- Peer.Receive(n) on a stream that holds the bytes returns exactly them and leaves the rest -/
 theorem receive_exact (a b : List UInt8) : recvN (a ++ b) a.length = .ok (a, b) := by
   unfold recvN
